@@ -136,9 +136,12 @@ CLAIM_C26 = dict(
     category="model_checking", design_ref="DESIGN.md §4 C26",
     text="TestResults.tla models the flaky-retry loop of doFlakeRun as actions (one attempt = one Run action that adds its cases "
          "with TestSuite.Add and stops on the first fully successful attempt or when the allowance is used up) over skeletons "
-         "of test-case entries (class+name, possibly listed twice) and outcomes pass/fail/error/skip per attempt. The "
+         "of test-case entries (name + one of two classnames or NO classname, possibly listed twice; an unqualified and a "
+         "qualified case of the same name are different cases) and outcomes pass/fail/error/skip per attempt. The "
          "property level is computed from the raw attempts: the distinct identities, per counter the range the statement "
-         "allows, and 'target passes iff every identity passed or was skipped in some attempt made'; TLC checks the "
+         "allows, per identity the number of executions of each kind (none may be lost or invented; after Please writes "
+         "its results and reads them back, at least the failing/erroring executions of never-passing cases), "
+         "and 'target passes iff every identity passed or was skipped in some attempt made'; TLC checks the "
          "algorithm-level counters (shaped like core.TestSuite) against it on every reachable state and prints every "
          "terminal behaviour. Each behaviour is rendered by the harness to JUnit XML (single suite, several suites, a suite "
          "nested in a suite; names and classnames containing < > & \" ' and an entity-looking text) and to `go test -v` text, "
@@ -162,7 +165,36 @@ CLAIM_C26 = dict(
 _COUNTERS = ["passes", "failures", "errors", "skips", "flaky"]
 
 
-def _c26_check(exp, o, n_runs):
+_KINDS = (("P", "pass"), ("F", "fail"), ("E", "error"), ("S", "skip"))
+
+
+def _c26_execs(want, o, strict_only):
+    """compares the executions the real code holds per case (o["execs"], parallel to o["ids"]) with the spec's counts.
+    strict_only: only the failing/erroring executions of cases that never passed nor were skipped (after Please wrote
+    the results out and read them back; the writer is free in what it keeps of the others)."""
+    by_id = {(w["cls"], w["name"]): w for w in want}
+    out = set()
+    for ident, ex in zip(o["ids"], o.get("execs", [])):
+        w = by_id.get(tuple(ident))
+        if w is None:
+            continue
+        if strict_only and not w["strict"]:
+            continue
+        kinds = (("F", "fail"), ("E", "error")) if strict_only else _KINDS
+        got = {k: ex.count(letter) for letter, k in kinds}
+        exp = {k: w[k] for _, k in kinds}
+        if got == exp:
+            continue
+        if sum(got.values()) < sum(exp.values()):
+            out.add("executions-lost")
+        elif sum(got.values()) > sum(exp.values()):
+            out.add("executions-added")
+        else:
+            out.add("execution-kinds-changed")
+    return sorted(out)
+
+
+def _c26_check(exp, o, n_runs, execs=None, strict_only=False):
     """returns a list of mismatch classes of one observation against the expectation of its format"""
     if "parse_error" in o:
         return ["parse-error"]
@@ -185,6 +217,8 @@ def _c26_check(exp, o, n_runs):
     elif o["tests"] != exp["tests"]:
         out.append("tests-count")
     if not out:
+        if execs is not None:
+            out += _c26_execs(execs, o, strict_only)
         for k in _COUNTERS:
             lo, hi = exp[k]
             if not (lo <= o[k] <= hi):
@@ -271,7 +305,7 @@ def _c26_e2e(ctx, cases, n):
                 if nm == name and cls is None:
                     ids.append(("?", "?the_test"))
                 else:
-                    ids.append(rev.get((cls, nm), ("?" + str(cls), "?" + str(nm))))
+                    ids.append(rev.get((cls, nm)) or rev.get((cls or "", nm), ("?" + str(cls), "?" + str(nm))))
             try:
                 attempts = int(open(os.path.join(cnt, name)).read())
             except Exception:
@@ -301,9 +335,10 @@ def _c26_e2e(ctx, cases, n):
 
 @register("C26", claim=CLAIM_C26)
 def run_c26(ctx):
-    ctx.rule = ("every terminal behaviour of the retry loop of TestResults.tla (skeletons of <=3 entries over 2 classes x 2 names, "
-                "first entry fixed by symmetry; outcomes pass/fail/error/skip; allowance 1..3 with entries x allowance <= 4 "
-                "quick / <= 6 thorough; simulated 4-entry x 3-attempt behaviours) rendered to 3 XML structures + go text per "
+    ctx.rule = ("every terminal behaviour of the retry loop of TestResults.tla (skeletons of <=3 entries over {no class, 2 classes} "
+                "x 2 names, first entry fixed up to symmetry; outcomes pass/fail/error/skip; allowance 1..3 with entries x "
+                "allowance <= 4 quick; thorough adds 2 entries x 3 attempts and, for the two qualified classes, 3 entries x 2 "
+                "attempts; simulated 4-entry x 3-attempt behaviours) rendered to 3 XML structures + go text per "
                 "attempt and parsed by the real parser; non-trivial = more than one execution in total; distinct by the "
                 "attempt table")
     ctx.assumptions = ["`go test -v` has no 'error' outcome: rendered as FAIL and expected as fail",
@@ -322,11 +357,8 @@ def run_c26(ctx):
         cases = r.cases
         if not ctx.quick:
             cases += vlib.tlc(ctx, "TestResults", "GEN_TestResults_full.cfg", workers=8, timeout=1200).cases
-            # the recorded flaw at model level: with the code's synthetic-case rule switched on TLC must refute CountsOK
-            k = vlib.tlc(ctx, "TestResults", "MC_TestResults_known.cfg", workers=2, allow_violation=True)
-            ctx.extra["flaw_model_counterexample"] = k.invariant or "none"
-            if k.invariant is None:
-                ctx.notes.append("MC_TestResults_known.cfg no longer yields a counterexample: the flaw constant is stale")
+            cases += vlib.tlc(ctx, "TestResults", "GEN_TestResults_thorough_deep.cfg", workers=8, timeout=2400,
+                              java_opts=["-Xmx8g"]).cases
         s = vlib.tlc(ctx, "TestResults", "SIM_TestResults.cfg", workers=1, simulate=3 if ctx.quick else 60, depth=5,
                      seed=ctx.seed)
         cases += s.cases
@@ -378,7 +410,10 @@ def run_c26(ctx):
                 if x is None or (which and main_bad):      # a wrong result re-serialised is the same wrong result
                     continue
                 n_obs += 1
-                bad = _c26_check(exp, x, len(c["runs"]))
+                # executions: exact for what the parser makes of the attempt files; what one <testcase> element can
+                # say for the one-file rendering; after a write/re-read only the strict part
+                want_execs = c["inline"] if level == "inline" else c["execs"][fmt]
+                bad = _c26_check(exp, x, len(c["runs"]), execs=want_execs, strict_only=bool(which))
                 if not which:
                     main_bad = bad
                 if rendering == "xml:flat":
